@@ -49,6 +49,9 @@ func RunIso(c Case) int {
 		mu.Unlock()
 		return out, nil
 	}
+	var gwOnce sync.Once
+	var gateway func(context.Context)
+	gwDone := make(chan struct{})
 	smux := &lime.EnvelopeMux{}
 	smux.MessageHandlerFunc(nil, func(ctx context.Context, m *lime.Message, s lime.Sender) error {
 		who, i := splitID(m.ID)
@@ -74,6 +77,12 @@ func RunIso(c Case) int {
 			res = "foreign"
 		}
 		l.log(Event{K: "dispatch", G: who, I: i, Res: res})
+		if who == "k0" && i == 1 {
+			// a gateway: while handling this message the application opens a session of its own (to this very
+			// server) and listens on it with a context that descends from the handler's. What arrives on that
+			// session belongs to that session, not to the one whose handler started it.
+			gwOnce.Do(func() { go gateway(ctx) })
+		}
 		r := &lime.Message{}
 		r.ID = "re:" + m.ID
 		r.SetContent(lime.TextDocument("reply"))
@@ -84,6 +93,58 @@ func RunIso(c Case) int {
 	})
 	var srv *lime.Server
 	var tcpAddr, wsAddr *net.TCPAddr
+	gateway = func(hctx context.Context) {
+		defer close(gwDone)
+		dctx, dcancel := context.WithTimeout(context.Background(), 5*time.Second)
+		defer dcancel()
+		t, err := lime.DialTcp(dctx, tcpAddr, nil)
+		if err != nil {
+			return
+		}
+		up := lime.NewClientChannel(t, 4)
+		ses, err := up.EstablishSession(dctx, lime.NoneCompressionSelector, lime.NoneEncryptionSelector,
+			lime.Identity{Name: "k900", Domain: "example.com"},
+			func([]lime.AuthenticationScheme, lime.Authentication) lime.Authentication { return &lime.GuestAuthentication{} }, "i")
+		if err != nil || ses.State != lime.SessionStateEstablished {
+			_ = t.Close()
+			return
+		}
+		mu.Lock()
+		known["k900"] = info{sid: up.ID(), local: up.LocalNode(), remote: up.RemoteNode()}
+		mu.Unlock()
+		got := make(chan struct{}, 1)
+		upMux := &lime.EnvelopeMux{}
+		upMux.MessageHandlerFunc(nil, func(c2 context.Context, m *lime.Message, s lime.Sender) error {
+			sid, _ := lime.ContextSessionID(c2)
+			res := "foreign"
+			if sid == up.ID() {
+				res = "own"
+			}
+			l.log(Event{K: "reply", G: "k900", I: 1, Res: res})
+			select {
+			case got <- struct{}{}:
+			default:
+			}
+			return nil
+		})
+		lctx, lcancel := context.WithCancel(hctx) // descends from the handler's context
+		go func() { _ = upMux.ListenClient(lctx, up) }()
+		m := &lime.Message{}
+		m.ID = "k900:1"
+		m.SetContent(lime.TextDocument("ask"))
+		sctx, scancel := context.WithTimeout(context.Background(), 3*time.Second)
+		_ = up.SendMessage(sctx, m)
+		scancel()
+		select {
+		case <-got:
+		case <-time.After(3 * time.Second):
+		}
+		lcancel()
+		fctx, fcancel := context.WithTimeout(context.Background(), 7*time.Second)
+		_, _ = up.FinishSession(fctx)
+		fcancel()
+		_ = up.Close()
+	}
 	ia := lime.InProcessAddr(fmt.Sprintf("iso-%d", os.Getpid()))
 	lasDone := make(chan error, 1)
 	started := false
@@ -215,6 +276,14 @@ func RunIso(c Case) int {
 			res = "clash"
 		}
 		seen[s] = true
+	}
+	select { // the gateway session, if it was started
+	case <-gwDone:
+	case <-time.After(200 * time.Millisecond):
+		select {
+		case <-gwDone:
+		case <-time.After(12 * time.Second):
+		}
 	}
 	l.log(Event{K: "ids", Res: res, N: n})
 	dialMu.Lock()
